@@ -1,6 +1,6 @@
 (* C10, Maven part: a version's canonical string denotes the same version.  Statements only. *)
 From DepsDev Require Import Lib.Base Semver.Version Semver.Compare Semver.Maven Semver.MavenParse Semver.MavenDomain
-  Semver.Maven_proofs Semver.Canon_mg_proofs.
+  Semver.MavenPrintable Semver.Maven_proofs Semver.Canon_mg_proofs Semver.MavenCanon_proofs.
 Local Open Scope Z_scope.
 
 (* The full statement, over all accepted strings (mvn_roundtrip s = the canonical string, and
@@ -29,13 +29,29 @@ Theorem C10_maven_canon_head : forall l, maven_canon (head_sep0 l) = maven_canon
 Proof. exact maven_canon_head. Qed.
 Print Assumptions C10_maven_canon_head.
 
-(* ... while on the domain of C01 a list whose first separator is 0 compares equal to itself:
-   when the canonical string re-parses to the same elements (which the harness checks on every
-   generated string by kinds sv_canon / svm_canon_maven) the three clauses hold exactly for
-   the versions that do not start with a separator.  The print/parse inversion itself
-   (re-parsing the printed elements gives the same elements: tokenisation, the a/b/m shortcut
-   and the trimming loop are fixed points on parser outputs) is NOT a theorem here. *)
-Theorem C10_maven_same_elements_partial : forall l, d_mvn_wide (head_sep0 l) = true -> l = head_sep0 l ->
-  maven_compare l (head_sep0 l) = Ok 0.
-Proof. exact maven_reparse_same. Qed.
-Print Assumptions C10_maven_same_elements_partial.
+(* What holds, for ALL element lists of MavenPrintable.printable_b (texts homogeneous and
+   lower-case, separators '.' or '-', inside the modelled fragment, fixed points of the trimming
+   loop and of the integer pass -- the harness checks on every generated string that the parsed
+   list is one, kind svm_maven_printable): the canonical string parses, to the same list with the
+   first separator set to 0 ... *)
+Theorem C10_maven_roundtrip_partial : forall l, printable_b l = true ->
+  exists b, mvn_parse (maven_canon l) = Some (Ok (mk_version (maven_canon l) (head_sep0 l) b)).
+Proof. exact maven_roundtrip. Qed.
+Print Assumptions C10_maven_roundtrip_partial.
+
+(* ... hence the three clauses (re-parse, compare 0, same canonical string) for the lists whose
+   first separator is 0, i.e. the versions that do not start with a separator ... *)
+Theorem C10_maven_clauses_partial : forall l, printable_b l = true -> head_sep0 l = l ->
+  exists b, mvn_parse (maven_canon l) = Some (Ok (mk_version (maven_canon l) l b)) /\
+            maven_compare l l = Ok 0 /\ maven_canon l = maven_canon l.
+Proof. exact maven_roundtrip_clauses. Qed.
+Print Assumptions C10_maven_clauses_partial.
+
+(* ... and two such lists with the same canonical string are the same list (so compare 0). *)
+Theorem C10_maven_inj_partial : forall l1 l2, printable_b l1 = true -> printable_b l2 = true ->
+  head_sep0 l1 = l1 -> head_sep0 l2 = l2 -> maven_canon l1 = maven_canon l2 -> l1 = l2.
+Proof. exact maven_canon_inj. Qed.
+Print Assumptions C10_maven_inj_partial.
+
+Theorem C10_maven_compare_refl : forall l, maven_compare l l = Ok 0.
+Proof. exact maven_compare_refl. Qed.
